@@ -88,6 +88,7 @@ SIMP_OFF = {('gnpy.core.science_utils', 'sim_params'):
 contract('gnpy.core.science_utils.RamanSolver.calculate_stimulated_raman_scattering',
          name='gnpy.core.science_utils.RamanSolver.calculate_stimulated_raman_scattering[Raman off]', props=['C05'],
          params={'spectral_info': SI(), 'fiber': FIBER}, spec=SPEC_LUMP, overrides=SIMP_OFF, use_at_calls=False,
+         inline_callees=['gnpy.core.elements.Fiber.alpha'],
          let={'lp': 'result.loss_profile', 'last': 'result.loss_profile.shape[1] - 1'},
          requires=[('inv', 'INV(spectral_info)')],
          ensures=[('attenuation_positive', 'forall(lambda i: lp[i, last] > 0, NCH(spectral_info))'),
